@@ -3,6 +3,9 @@
 #![allow(unused_imports, dead_code)]
 use super::*;
 use sw_composite::*;
+#[path = "common_uf.rs"]
+mod uf;
+use uf::*;
 
 pub fn pm(p: u32) -> bool {
     let a = p >> 24;
@@ -92,4 +95,125 @@ fn k_alpha_lerp_full_residual() {
     let d: u32 = kani::any();
     assert!(alpha_lerp(d, b, 255, 255) == lerp(d, b, 255), "alpha_lerp(d,b,255,255)==lerp(d,b,255)");
     kani::cover!(true);
+}
+
+// ---------------------------------------------------------------- SrcOver span blitters (paired with lane V unit shader_mask_blitter)
+// over_in / over_in_in are replaced by arbitrary functions here (as in lane V): the span contract holds for ANY kernel.
+pub static mut UF_OVER_IN: Uf = Uf::new();
+pub static mut UF_OVER_IN_IN: Uf = Uf::new();
+pub fn over_in_uf(src: u32, dst: u32, alpha: u32) -> u32 { unsafe { UF_OVER_IN.call([src, dst, alpha, 0]) } }
+pub fn over_in_in_uf(src: u32, dst: u32, mask: u32, clip: u32) -> u32 { unsafe { UF_OVER_IN_IN.call([src, dst, mask, clip]) } }
+pub struct AnyShader;
+impl Shader for AnyShader {
+    fn shade_span(&self, _x: i32, _y: i32, dest: &mut [u32], count: usize) {
+        assert!(count <= dest.len(), "shade_span precondition: count <= dest.len()");
+        let mut i = 0;
+        while i < 3 {
+            if i < count { dest[i] = kani::any(); }
+            i += 1;
+        }
+    }
+}
+
+// @ob id=K.shader_mask_blitter_span props=C02,C03 kind=bounded:dest=3x2,count<=3 tier=quick timeout=600 fns=ShaderMaskBlitter::blit_span
+// @+ desc="bounded twin of the lane-V contract (supplies counterexamples): every word of a 3x2 destination at any origin: inside the span and mask!=0 -> over_in(tmp[i], d, mask[i]); everything else bit-identical"
+#[kani::proof]
+#[kani::unwind(8)]
+#[kani::stub(sw_composite::over_in, over_in_uf)]
+fn k_shader_mask_blitter_span() {
+    let ox: i32 = kani::any();
+    let oy: i32 = kani::any();
+    kani::assume(ox >= -100 && ox <= 100 && oy >= -100 && oy <= 100);
+    let old: [u32; 6] = kani::any();
+    let mut dest = old;
+    let mask: [u8; 3] = kani::any();
+    let y: i32 = kani::any();
+    let x1: i32 = kani::any();
+    let x2: i32 = kani::any();
+    kani::assume(y >= oy && y < oy + 2 && x1 >= ox && x1 <= x2 && x2 <= ox + 3);
+    let count = (x2 - x1) as usize;
+    let shader = AnyShader;
+    let mut b = ShaderMaskBlitter { x: ox, y: oy, shader: &shader, tmp: vec![0; 3], dest: &mut dest[..], dest_stride: 3 };
+    b.blit_span(y, x1, x2, &mask[..count]);
+    let tmp = [b.tmp[0], b.tmp[1], b.tmp[2]];
+    let base = ((y - oy) * 3 + x1 - ox) as usize;
+    let mut k = 0;
+    while k < 6 {
+        if k >= base && k < base + count && mask[k - base] != 0 {
+            assert!(dest[k] == over_in(tmp[k - base], old[k], mask[k - base] as u32), "covered pixel = over_in(source, previous, coverage)");
+        } else {
+            assert!(dest[k] == old[k], "pixel outside the span or with zero coverage is bit-identical");
+        }
+        k += 1;
+    }
+    kani::cover!(count == 3 && y == oy + 1);
+    kani::cover!(count == 2 && mask[0] == 0);
+}
+
+// @ob id=K.shader_clip_mask_blitter_span props=C02,C03,C05 kind=bounded:dest=3x2,count<=3 tier=quick timeout=600 fns=ShaderClipMaskBlitter::blit_span
+// @+ desc="bounded twin of the lane-V contract: destination is a 2x2 layer at a symbolic origin inside a 3x2 surface; clip mask indexed at absolute device coordinates; covered and clip!=0 -> over_in_in(tmp[i], d, mask[i], clip[y*3+x]); everything else bit-identical"
+#[kani::proof]
+#[kani::unwind(8)]
+#[kani::stub(sw_composite::over_in_in, over_in_in_uf)]
+fn k_shader_clip_mask_blitter_span() {
+    let ox: i32 = kani::any();
+    let oy: i32 = 0;
+    kani::assume(ox >= 0 && ox <= 1);
+    let old: [u32; 4] = kani::any();
+    let mut dest = old;
+    let mask: [u8; 2] = kani::any();
+    let clip: [u8; 7] = kani::any();
+    let y: i32 = kani::any();
+    let x1: i32 = kani::any();
+    let x2: i32 = kani::any();
+    kani::assume(y >= oy && y < oy + 2 && x1 >= ox && x1 <= x2 && x2 <= ox + 2);
+    let count = (x2 - x1) as usize;
+    let shader = AnyShader;
+    let mut b = ShaderClipMaskBlitter { x: ox, y: oy, shader: &shader, tmp: vec![0; 3], dest: &mut dest[..], dest_stride: 2, clip: &clip[..], clip_stride: 3 };
+    b.blit_span(y, x1, x2, &mask[..count]);
+    let tmp = [b.tmp[0], b.tmp[1], b.tmp[2]];
+    let base = ((y - oy) * 2 + x1 - ox) as usize;
+    let mut k = 0;
+    while k < 4 {
+        if k >= base && k < base + count && mask[k - base] != 0 && clip[(y * 3 + x1) as usize + (k - base)] != 0 {
+            assert!(dest[k] == over_in_in(tmp[k - base], old[k], mask[k - base] as u32, clip[(y * 3 + x1) as usize + (k - base)] as u32), "covered pixel = over_in_in(source, previous, coverage, clip coverage at the device position)");
+        } else {
+            assert!(dest[k] == old[k], "pixel outside the span, with zero coverage or zero clip coverage is bit-identical");
+        }
+        k += 1;
+    }
+    kani::cover!(count == 2 && ox == 1 && y == 1);
+}
+
+// ---------------------------------------------------------------- sources (C03 #5, C07 #9, C18 #3)
+// @ob id=K.choose_shader_solid props=C03,C07,C18 kind=complete tier=quick timeout=600 fns=choose_shader,SolidShader::shade_span
+// @+ desc="choose_shader, solid source, EVERY f32 global alpha (NaN, negative, > 1, infinite included) and every colour: never panics; the span colour is alpha_mul(c, a256(A)) with A = round(alpha*255) for alpha in [0,1], A = 0 for NaN/negative, A = 255 for alpha >= 1; premultiplied colours stay premultiplied; shade_span writes exactly `count` entries"
+#[kani::proof]
+#[kani::unwind(5)]
+fn k_choose_shader_solid() {
+    let alpha: f32 = kani::any();
+    let c = crate::SolidSource { r: kani::any(), g: kani::any(), b: kani::any(), a: kani::any() };
+    let src = Source::Solid(c);
+    let ti = Transform::identity();
+    let mut storage = ShaderStorage::None;
+    let shader = choose_shader(&ti, &src, alpha, &mut storage);
+    let mut dest = [0x12345678u32; 4];
+    let count: usize = kani::any();
+    kani::assume(count <= 3);
+    shader.shade_span(kani::any(), kani::any(), &mut dest[..], count);
+    let a_byte: u32 = if alpha.is_nan() || alpha <= 0. { 0 } else if alpha >= 1. { 255 } else { (alpha * 255. + 0.5) as u32 };
+    if alpha >= 0. && alpha <= 1. { assert!((a_byte as f32 - alpha * 255.).abs() <= 0.5, "alpha byte = round(alpha*255)"); }
+    let color = alpha_mul(c.to_u32(), alpha_to_alpha256(a_byte));
+    let mut i = 0;
+    while i < 4 {
+        if i < count { assert!(dest[i] == color, "span colour = source colour scaled by the global alpha"); }
+        else { assert!(dest[i] == 0x12345678, "shade_span writes exactly count entries"); }
+        i += 1;
+    }
+    if pm(c.to_u32()) { assert!(pm(color), "premultiplied stays premultiplied"); }
+    if a_byte == 0 { assert!(color >> 24 == 0, "zero global alpha gives a transparent source"); }
+    if a_byte == 255 { assert!(color == c.to_u32(), "alpha 1 leaves the colour unchanged"); }
+    kani::cover!(alpha == 0.5 && count == 3);
+    kani::cover!(alpha > 1.);
+    kani::cover!(alpha.is_nan());
 }
